@@ -57,7 +57,7 @@ MANIFEST = dict(
 )
 
 IMPORTS = ['Coq.ZArith.ZArith', 'Coq.NArith.NArith', 'Coq.Lists.List', 'Coq.Strings.String', 'SV.Num.Mod360', 'SV.Num.AngleSites', 'SV.Num.AngleCtor',
-           'SV.Num.Dec6', 'SV.Num.Dec6CarveProofs', 'SV.Num.VecText', 'SV.SM.FrozenOps', 'SV.SM.FrozenCopy', 'SV.SM.FrozenCopyValue',
+           'SV.Num.Dec6', 'SV.Num.Dec6CarveProofs', 'SV.Num.VecText', 'SV.SM.FrozenOps', 'SV.SM.FrozenCopy', 'SV.SM.FrozenCopyValue', 'SV.SM.FrozenHash',
            'SV.Gen.AngleSites_gen']
 PRE = '''Import ListNotations.
 Fixpoint bad_idx {A} (f : A -> bool) (n : N) (l : list A) : list N := match l with [] => [] | x :: r => (if f x then [] else [n]) ++ bad_idx f (n + 1)%N r end.
@@ -1357,6 +1357,220 @@ def search_ctor_forms(ck: Ck) -> None:
         ck.violation(key, what, rp)
 
 
+# ------------------------------------------------------------------------------------------------ frozen values as keys; in-place operators
+INPLACE_OPS = ('iadd', 'isub', 'imul', 'itruediv', 'ifloordiv', 'imod', 'ipow', 'imatmul', 'ilshift', 'irshift', 'iand', 'ixor', 'ior')
+
+
+def inplace_case(cname: str, v: list, opname: str, argkind: str) -> list[tuple[str, str]]:
+    """`x = frozen; x <op>= arg` for one operator and one kind of argument: the frozen object and the argument keep
+    their value (and hash), the name is rebound to another object unless the value is the same."""
+    import operator
+    import srctools.math as M
+    mk = {'FrozenVec': lambda: M.FrozenVec(*v), 'FrozenAngle': lambda: M.FrozenAngle(*v),
+          'FrozenMatrix': lambda: M.FrozenMatrix.from_angle(*v)}[cname]
+    a = mk()
+    arg = {'float': 2.5, 'int': 3, 'zero': 0.0, 'tuple': (1.0, 2.0, 3.0), 'vec': M.Vec(1.0, -2.0, 0.5), 'fvec': M.FrozenVec(1.0, -2.0, 0.5),
+           'angle': M.Angle(10.0, 20.0, 30.0), 'fangle': M.FrozenAngle(10.0, 20.0, 30.0), 'matrix': M.Matrix.from_yaw(45.0),
+           'fmatrix': M.FrozenMatrix.from_pitch(-1e-14), 'self': a}[argkind]
+    before, hb = snap(a), (hash(a) if cname != 'FrozenMatrix' else None)
+    arg_before = snap(arg) if hasattr(arg, '__slots__') and not isinstance(arg, tuple) else None
+    out: list[tuple[str, str]] = []
+    try:
+        with warnings.catch_warnings():
+            warnings.simplefilter('ignore')
+            x = getattr(operator, opname)(a, arg)
+    except (TypeError, ZeroDivisionError, ValueError, ArithmeticError):
+        x = None
+    what = f'x = {cname}{tuple(v)!r}; x {opname} {argkind}'
+    if snap(a) != before or (hb is not None and hash(a) != hb):
+        out.append((f'frozen-{cname}-changed-by-inplace-{opname}', f'{what}: the frozen object went from {before[1]} to {snap(a)[1]}'))
+    if arg_before is not None and arg is not a and snap(arg) != arg_before:
+        out.append((f'argument-changed-by-inplace-{opname}-{cname}', f'{what}: the argument went from {arg_before[1]} to {snap(arg)[1]}'))
+    if x is not None and not isinstance(x, tuple) and (isvec(x) or isang(x) or ismat(x)):
+        if isang(x) and finite_obj(x) and not all(0.0 <= c < 360.0 for c in raw_slots(x)):
+            out.append((f'angle-out-of-range-after-inplace-{opname}-{cname}', f'{what} gives {raw_slots(x)!r}'))
+        if x is a and False:
+            pass
+    return out
+
+
+def search_frozen_keys(ck: Ck) -> None:
+    """(1) hash/==: the same value reached by different routes hashes and compares equal and is found in a dict/set; the hash
+    of a frozen object is the same after reading operations; mutable classes are unhashable.  == within the tolerance
+    but different hashes is reported under its own key (inherent to a tolerance equality; known finding).
+    (2) every in-place operator on every frozen class with every kind of argument."""
+    import srctools.math as M
+    rng = ck.rng
+    found: dict[str, tuple] = {}
+    for o in (M.Vec(1, 2, 3), M.Angle(1, 2, 3), M.Matrix()):
+        try:
+            hash(o)
+            found[f'mutable-class-hashable-{type(o).__name__}'] = (f'hash({o!r}) works although the value can change', {'call': 'hash', 'cls': type(o).__name__})
+        except TypeError:
+            pass
+    n = ck.budget(400, 4000)
+    for i in range(n):
+        q = rng.random()
+        if i < len(CTOR_FLOATS):
+            v = [CTOR_FLOATS[i], CTOR_FLOATS[(i * 7 + 3) % len(CTOR_FLOATS)], CTOR_FLOATS[(i * 5 + 1) % len(CTOR_FLOATS)]]
+        elif q < 0.4:       # around the rounding boundaries of round(x, 6) and the tolerance of ==
+            v = [nextafter_n(rng.randint(-10 ** 6, 10 ** 6) / 10 ** rng.choice([0, 3, 6]) + rng.choice([0.0, 5e-7, -5e-7, 1e-6, 4.9e-7]), rng.randint(-2, 2)) for _ in range(3)]
+        else:
+            v = [rnd_val(rng) for _ in range(3)]
+        for cls in (M.FrozenVec, M.FrozenAngle):
+            with impl_limit():
+                a = cls(*v)
+                if not finite_obj(a):
+                    continue
+                ck.count('hash_cases')
+                if any(c != round(c) for c in raw_slots(a)):
+                    ck.seen(('hash', cls.__name__, tuple(hexes(v))))
+                h0, s0 = hash(a), raw_slots(a)
+                routes = {'components': cls(*a), 'pickle': pickle.loads(pickle.dumps(a)), 'thaw_freeze': a.thaw().freeze(), 'from_mutable': cls(a.thaw()),
+                          'iterator': cls(iter(a)), 'deepcopy_of_thawed': cls(copy.deepcopy(a.thaw())), 'from_str_object': cls.from_str(a)}
+                for rname, b in routes.items():
+                    if hexes(raw_slots(b)) != hexes(s0):
+                        continue                      # a different value: reported by the constructor / copy oracles
+                    if hash(b) != h0 or not (a == b) or (a != b) or {a: 1}.get(b) != 1 or b not in {a} or a not in frozenset([b]):
+                        found.setdefault(f'frozen-hash-differs-for-same-value-{rname}-{cls.__name__}',
+                                         (f'{a!r} and the same value by {rname}: hash {h0} / {hash(b)}, == {a == b}', {'call': 'hash_route', 'cls': cls.__name__, 'values': hexes(v), 'route': rname}))
+                # reading operations leave value and hash alone
+                reads = [str, repr, lambda o: o.join(';'), lambda o: format(o, '.2f'), list, lambda o: o.thaw(), lambda o: o == routes['pickle'],
+                         lambda o: o == tuple(o), lambda o: o @ M.Angle(10, 20, 30), lambda o: o * 2]
+                if isvec(a):
+                    reads += [bool, lambda o: -o, abs, lambda o: o + o, lambda o: o - (1, 2, 3), lambda o: o.norm(), lambda o: o.mag(), lambda o: o.to_angle(),
+                              lambda o: o.cross(o), lambda o: o.dot(o), lambda o: round(o, 3), lambda o: divmod(o, 7.0), lambda o: o.rotate_by_str('0 90 0') if hasattr(o, 'rotate_by_str') else None]
+                else:
+                    reads += [lambda o: M.Matrix.from_angle(o), lambda o: 3 * o, lambda o: o.as_tuple(), lambda o: reversed(o)]
+                for rd in reads:
+                    try:
+                        with warnings.catch_warnings():
+                            warnings.simplefilter('ignore')
+                            rd(a)
+                    except (OverflowError, ZeroDivisionError, ValueError, ArithmeticError):
+                        pass
+                if hash(a) != h0 or hexes(raw_slots(a)) != hexes(s0):
+                    found.setdefault(f'frozen-{cls.__name__}-changed-by-reading', (f'{cls.__name__}{tuple(v)!r}: slots {hexes(s0)} -> {hexes(raw_slots(a))}, hash {h0} -> {hash(a)}',
+                                                                                  {'call': 'hash_read', 'cls': cls.__name__, 'values': hexes(v)}))
+                # == implies equal hashes (Python's contract for keys)
+                for d in (0.0, 1e-7, 4e-7, -6e-7, 9.9e-7):
+                    b = cls(s0[0] + d, s0[1], s0[2] - d)
+                    if finite_obj(b) and a == b and hash(a) != hash(b):
+                        ck.hist('eq_but_hash_differs', cls.__name__)
+                        if hexes(raw_slots(b)) == hexes(s0):
+                            found.setdefault(f'frozen-hash-differs-for-same-value-shift-{cls.__name__}', (f'{a!r} twice: different hashes', {'call': 'hash_eq', 'cls': cls.__name__, 'values': hexes(v), 'd': d}))
+                        else:
+                            found.setdefault(f'equal-frozen-values-hash-differently-{cls.__name__}',
+                                             (f'{cls.__name__}{s0!r} == {cls.__name__}{raw_slots(b)!r} but their hashes differ ({hash(a)} / {hash(b)}): the second is not found in a dict keyed by the first',
+                                              {'call': 'hash_eq', 'cls': cls.__name__, 'values': hexes(list(s0)), 'd': d}))
+    # in-place operators
+    m = ck.budget(3, 12)
+    for j in range(m):
+        v = [rnd_val(rng) for _ in range(3)] if j else [-1e-14, 90.0, 359.99999999999994]
+        for cname in ('FrozenVec', 'FrozenAngle', 'FrozenMatrix'):
+            for opname in INPLACE_OPS:
+                for argkind in ('float', 'int', 'zero', 'tuple', 'vec', 'fvec', 'angle', 'fangle', 'matrix', 'fmatrix', 'self'):
+                    ck.count('inplace_cases')
+                    ck.hist('inplace_op', opname)
+                    try:
+                        with impl_limit():
+                            probs = inplace_case(cname, v, opname, argkind)
+                    except ImplTimeout:
+                        probs = [(f'implementation-hangs-in-inplace-{opname}-{cname}', f'{cname} {opname} {argkind} did not return')]
+                    for key, what in probs:
+                        found.setdefault(key, (what, {'call': 'inplace_case', 'cls': cname, 'values': hexes(v), 'op': opname, 'arg': argkind,
+                                                      'how': 'checks.c05.inplace_case(cls, values, op, arg)'}))
+    for key, (what, rp) in found.items():
+        ck.violation(key, what, rp)
+
+
+# ------------------------------------------------------------------------------------------------ __format__ with a user spec
+FORMAT_SPECS = ['.0f', '.1f', '.2f', '.3f', '.6f', '.7f', '.9f', '.12f', 'f', 'F', 'e', 'E', '.0e', '.1e', '.3e', '.10e', 'g', 'G', '.1g', '.3g', '.10g', '.17g',
+                '.3', '.12', '.2%', '.0%', ',.2f', '_.3f', '+.3f', ' .2f', '10.2f', '<10.3f', '>12.4f', '^9.1f', '010.3f', '+.2e', '#.3g', '012.4e']
+
+
+def spec_number(t: str) -> float | None:
+    """The number a formatted component denotes (padding, thousands separators, a percent sign removed)."""
+    t = t.strip().replace(',', '').replace('_', '')
+    pct = t.endswith('%')
+    try:
+        from fractions import Fraction
+        v = Fraction(t[:-1] if pct else t)
+        return float(v / 100 if pct else v)
+    except (ValueError, ZeroDivisionError):
+        return None
+
+
+def format_spec_case(cname: str, v: list, spec: str) -> list[tuple[str, str]]:
+    """format(obj, spec): three components, each denoting exactly the number Python's format() of that component denotes
+    (the zero stripping must not change a value); an empty spec is str(); '.Nf' output is plain and never '-0'."""
+    import srctools.math as M
+    o = getattr(M, cname)(*v)
+    comps = raw_slots(o)
+    fam = 'angle' if isang(o) else 'vec'
+    kind = re.sub(r'[^a-zA-Z%]', '', spec) or 'general'
+    txt = format(o, spec)
+    out: list[tuple[str, str]] = []
+    if format(o, '') != str(o) or f'{o}' != str(o):
+        out.append((f'{fam}-format-empty-spec-differs-from-str', f'format({o!r}, "") = {format(o, "")!r}, str = {str(o)!r}'))
+    padded = bool(re.match(r'.?[<>^=]|0?\d', spec)) or spec.startswith(' ')
+    parts = txt.split(' ') if not padded else None
+    if padded:
+        # with padding the components contain spaces: compare the numbers found
+        parts = re.findall(r'[-+]?[0-9][0-9,_]*\.?[0-9]*(?:[eE][-+]?[0-9]+)?%?|[-+]?\.[0-9]+(?:[eE][-+]?[0-9]+)?%?', txt)
+    if len(parts) != 3:
+        return out + [(f'{fam}-format-spec-{kind}-not-three-numbers', f'format({o!r}, {spec!r}) = {txt!r}')]
+    for c, t in zip(comps, parts):
+        want = spec_number(format(c + 0.0, spec))
+        got = spec_number(t)
+        if want is None:
+            continue
+        if got is None or got != want:
+            out.append((f'{fam}-format-spec-{kind}-changes-value', f'format({o!r}, {spec!r}) = {txt!r}: component {c!r} is written {t!r}, format() of the float gives {format(c + 0.0, spec)!r}'))
+            break
+        if re.fullmatch(r'\.\d+f', spec) and not padded:
+            if t == '-0':
+                out.append((f'{fam}-format-spec-negative-zero', f'format({o!r}, {spec!r}) = {txt!r}'))
+                break
+            if not re.fullmatch(r'-?[0-9]+(\.[0-9]*[1-9])?', t):
+                out.append((f'{fam}-format-spec-f-not-plain', f'format({o!r}, {spec!r}) = {txt!r}: {t!r} is not a plain decimal without trailing zeros'))
+                break
+    return out
+
+
+def search_format_spec(ck: Ck) -> None:
+    rng = ck.rng
+    n = ck.budget(150, 1500)
+    found: dict[str, tuple] = {}
+    special = [1.5e20, 1e10, 2.5e-10, 100.0, 0.5, -1e-9, 1e100, 1234567.0, 0.0001, 1e-5, 120.0, 1e22, 5e-324, 100000.0, 1e6, 1e16, -0.0, 359.9999995]
+    for i in range(n):
+        if i < len(special):
+            v = [special[i], special[(i + 5) % len(special)], special[(i + 11) % len(special)]]
+        else:
+            v = [gen_fmt_double(rng)[1] if rng.random() < 0.6 else rng.choice(special) * rng.choice([1, 10, 100, 1000, -1]) for _ in range(3)]
+        if not all(math.isfinite(x) and abs(x) < 1e300 for x in v):
+            continue
+        for cname in ('Vec', 'FrozenVec', 'Angle', 'FrozenAngle'):
+            specs = FORMAT_SPECS if i < len(special) else rng.sample(FORMAT_SPECS, 6)
+            for spec in specs:
+                ck.count('format_spec_cases')
+                ck.hist('format_spec', spec)
+                try:
+                    with impl_limit():
+                        probs = format_spec_case(cname, v, spec)
+                except ImplTimeout:
+                    probs = [(f'implementation-hangs-in-format-{cname}', f'format({cname}{tuple(v)!r}, {spec!r}) did not return')]
+                except Exception as e:      # noqa: BLE001
+                    probs = [(f'format-spec-raised-{cname}', f'format({cname}{tuple(v)!r}, {spec!r}) raised {type(e).__name__}: {e}')]
+                if any('e' in format(c + 0.0, spec).lower() for c in v):
+                    ck.seen(('fspec', cname, spec, tuple(hexes(v))))
+                for key, what in probs:
+                    found.setdefault(key, (what, {'call': 'format_spec_case', 'cls': cname, 'values': hexes(v), 'spec': spec,
+                                                  'how': 'checks.c05.format_spec_case(cls, values, spec)'}))
+    for key, (what, rp) in found.items():
+        ck.violation(key, what, rp)
+
+
 def theorems_with_axioms(ck: Ck, props_file: str = 'Props/C05.v'):
     """Starts the Print Assumptions pass in the background (it only reads the built .vo files and costs ~30 s through
     Flocq/Reals); the returned function waits for it and records the obligations.  A background job that could not run
@@ -1549,6 +1763,8 @@ def run(ck: Ck) -> None:
             'copy_shapes_keep_every_slot_value': 'copy_shapes_ok copy_shapes',
             'copy_shapes_agree_with_result_kinds': 'shapes_agree result_kinds copy_shapes',
             'census_fresh_by_name_justified': 'fresh_names_ok fresh_by_name',
+            'hash_is_a_function_of_all_slots_of_a_frozen_value': 'hash_table_ok hash_kinds',
+            'no_inplace_operator_on_a_class_of_frozen_objects': 'inplace_ok inplace_rows',
             'no_write_through_unknown_or_aliased_object': 'forallb (fun e : mut_event => match snd (fst e) with Unknown | MaybeAlias | Param => helper (snd (fst (fst e))) | _ => true end) mut_events',
         })
         if not all(res.values()):      # a premise of the theorems no longer holds for today's source: escalate the search
@@ -1558,7 +1774,7 @@ def run(ck: Ck) -> None:
         # the model evaluations (coqc processes) run in the pool while the searches on the implementation run here
         pend = [Pending(ck, g(ck), pool) for g in (corr_mod, corr_format, corr_parse)] if built else []
         info = pool.submit(ck.coq_eval, IMPORTS, ['bad_events no_carve mut_events', 'bad_results result_kinds', 'bad_creations angle_creations',
-                                                  'neg_zero_fix format_float_cfg', 'bad_shapes copy_shapes', 'bad_ctor_rows angle_ctor_rows'], 'info', 600, 'Import ListNotations.') if built else None
+                                                  'neg_zero_fix format_float_cfg', 'bad_shapes copy_shapes', 'bad_ctor_rows angle_ctor_rows', 'bad_hash_rows hash_kinds'], 'info', 600, 'Import ListNotations.') if built else None
         escalated = bool(ck.tie_broken)
         frames = guarded(ck, search_histories, [])
         if built:
@@ -1567,13 +1783,15 @@ def run(ck: Ck) -> None:
             corr_shapes(ck, frames, side)
         guarded(ck, search_to_angle)
         guarded(ck, search_ctor_forms)
+        guarded(ck, search_frozen_keys)
+        guarded(ck, search_format_spec)
         guarded(ck, search_text)
         for p in pend:
             p.finish()
         v = info.result() if info is not None else None
         if v:
             ck.extra['offending_census_entries'] = {'mut_events': v[0], 'result_kinds': v[1], 'angle_creations': v[2], 'copy_shapes': v[4],
-                                                     'angle_ctor_rows (constructor, argument form)': v[5]}
+                                                     'angle_ctor_rows (constructor, argument form)': v[5], 'hash_kinds': v[6]}
             ck.extra['format_float_has_negative_zero_repair (carve-out of c05_format6_shape empty when true)'] = v[3]
         if finish_theorems is not None:
             finish_theorems()
@@ -1582,6 +1800,8 @@ def run(ck: Ck) -> None:
         guarded(ck, search_histories)
         guarded(ck, search_to_angle)
         guarded(ck, search_ctor_forms)
+        guarded(ck, search_frozen_keys)
+        guarded(ck, search_format_spec)
         guarded(ck, search_text)
     explain_failures(ck)
 
@@ -1659,6 +1879,12 @@ def replay(data: dict) -> int:
         print(f"ctor_case({r['cls']!r}, {r['form']!r}, {v!r}, {r['k']})")
         for key, what in ctor_case(r['cls'], r['form'], v, r['k']):
             print(' ', key, '--', what)
+        return 0
+    if isinstance(r, dict) and r.get('call') == 'format_spec_case':
+        print(format_spec_case(r['cls'], [unhex(x) for x in r['values']], r['spec']))
+        return 0
+    if isinstance(r, dict) and r.get('call') == 'inplace_case':
+        print(inplace_case(r['cls'], [unhex(x) for x in r['values']], r['op'], r['arg']))
         return 0
     if isinstance(r, dict) and r.get('call') == 'format_float':
         from srctools.math import format_float
